@@ -213,6 +213,17 @@ def bitsAt (M lo num : Nat) : Nat := (M >>> lo) % 2 ^ num
 def WroteExactly (M M' lo num v : Nat) : Prop :=
   ∀ i, M'.testBit i = if lo ≤ i ∧ i < lo + num then v.testBit (i - lo) else M.testBit i
 
+/-- preconditions of the statements about a bit-aligned pixel reference at cursor `c`: a valid cursor, a bit
+    field wide enough for the pixel at any bit offset (what `bit_aligned_image_type` chooses:
+    `bit_size + 7` bits), channel widths whose shifted value fits the promoted `integer_t` -/
+structure RefOK (fb : Nat) (c : Cur) (widths : List Nat) : Prop where
+  byte : 0 ≤ c.byte
+  off0 : 0 ≤ c.off
+  off7 : c.off < 8
+  field : bitSize widths + 7 ≤ 8 * fb
+  small : bitSize widths < 2147483640
+  w25 : ∀ k, width widths k ≤ 25
+
 /-- Spec of proxy arithmetic: the mathematical result, to be taken modulo `2^num` -/
 def arithSpec (op : Arith) (old : Nat) (v : Int) : Int :=
   match op with
